@@ -32,6 +32,9 @@ pub enum Op {
   /// clone (of the concrete type) taken while others run, then source() of the clone
   CloneSource,
   CloneMap(bool),
+  /// clone of the concrete type (when the tree's root is a ReplaceSource), one more insertion on the clone - the thread's
+  /// own value, which it may mutate - then source() of the clone twice; other roots: clone, source() twice
+  CloneMutate,
   /// == with a fresh twin
   EqTwin,
   /// equality with ONE second, equal tree that all threads share (false: tree == other, true: other == tree)
@@ -170,6 +173,7 @@ fn op() -> BoxedStrategy<Op> {
     2 => Just(Op::Hash),
     2 => Just(Op::CloneSource),
     1 => any::<bool>().prop_map(Op::CloneMap),
+    2 => Just(Op::CloneMutate),
     1 => Just(Op::EqTwin),
     2 => any::<bool>().prop_map(Op::EqShared),
     2 => any::<bool>().prop_map(Op::EqNear),
@@ -396,6 +400,21 @@ fn run_op<'a>(tree: &'a BoxSource, other: &BoxSource, near: &BoxSource, spec: &S
       let some = (!spec.any(&|s| matches!(s, Spec::Sms { .. } | Spec::Custom { .. }))).then_some(m.is_some());
       Answer::MapAttr(attr_from_map(m.as_ref(), text, c).unwrap_or_else(|e| vec![Some((e, None, 0, 0, None))]), some)
     }
+    Op::CloneMutate => match (**tree).as_any().downcast_ref::<rspack_sources::ReplaceSource<BoxSource>>() {
+      Some(r) => {
+        let mut cl = r.clone();
+        cl.insert(0, "<+>", None);
+        let first = cl.source().to_string();
+        let second = cl.source().to_string();
+        Answer::Text(format!("{first}\u{0}{second}\u{0}{}", cl.size()))
+      }
+      None => {
+        let cl = dyn_clone::clone_box(&**tree);
+        let first = cl.source().to_string();
+        let second = cl.source().to_string();
+        Answer::Text(format!("{first}\u{0}{second}\u{0}{}", cl.size()))
+      }
+    },
     Op::EqTwin => Answer::Eq(**tree == *build(spec)),
     Op::EqShared(rev) => Answer::Eq(if rev { **other == **tree } else { **tree == **other }),
     Op::EqNear(rev) => Answer::Eq(if rev { **near == **tree } else { **tree == **near }),
